@@ -1,0 +1,14 @@
+//go:build verif
+
+package esql
+
+import (
+	"github.com/bmeg/grip/timestamp"
+	"github.com/jmoiron/sqlx"
+)
+
+// NewGraphDBVerif builds a GraphDB around an injected database handle (verification harness only).
+func NewGraphDBVerif(db *sqlx.DB, graphs []*Schema) *GraphDB {
+	ts := timestamp.NewTimestamp()
+	return &GraphDB{db: db, graphs: graphs, ts: &ts}
+}
